@@ -580,6 +580,17 @@ def _b_identity(interp, st, args, kw):
     return v
 
 
+def _b_array_copy(interp, st, args, kw):
+    """numpy.array(x): a NEW array with the values of x (in-place updates of it do not reach x)"""
+    v = _b_identity(interp, st, args, kw)
+    if is_z3(v):
+        return type(v)(v.as_ast(), v.ctx)
+    if isinstance(v, VArrN):
+        return VArrN(list(v.items))
+    import copy
+    return copy.copy(v) if isinstance(v, VArrTag) else v
+
+
 INTERP_RE = z3.Function("interp_re", z3.RealSort(), z3.IntSort(), z3.IntSort(), z3.RealSort())
 INTERP_IM = z3.Function("interp_im", z3.RealSort(), z3.IntSort(), z3.IntSort(), z3.RealSort())
 INTERP_NAN = z3.Function("interp_nan_outside", z3.RealSort(), z3.IntSort(), z3.IntSort(), z3.RealSort())
@@ -741,7 +752,7 @@ def _np_namespace():
     ns = {
         "sqrt": VBuiltin("np.sqrt", _b_np_sqrt), "exp": VBuiltin("np.exp", _b_exp),
         "abs": VBuiltin("np.abs", _b_abs), "maximum": VBuiltin("np.maximum", _b_np_maximum),
-        "asarray": VBuiltin("np.asarray", _b_identity), "array": VBuiltin("np.array", _b_identity),
+        "asarray": VBuiltin("np.asarray", _b_identity), "array": VBuiltin("np.array", _b_array_copy),
         "isscalar": VBuiltin("np.isscalar", _b_np_isscalar),
         "ones_like": VBuiltin("np.ones_like", _b_np_ones_like),
         "pi": None, "nan": NAN, "inf": INF, "isnan": VBuiltin("np.isnan", _b_isnan),
@@ -769,7 +780,7 @@ def library(base, attr):
         table = {
             "sqrt": _b_math_sqrt if base == "math" else _b_np_sqrt,
             "exp": _b_exp, "expm1": _b_expm1, "log": _b_log,
-            "asarray": _b_identity, "array": _b_identity,
+            "asarray": _b_identity, "array": _b_array_copy,
             "radians": _b_radians, "cos": _b_cos_generic, "isnan": _b_isnan,
             "maximum": _b_np_maximum, "interp": _b_np_interp, "sum": _b_np_sum,
         }
